@@ -35,7 +35,7 @@ func (g *G) intn(n int) int           { return g.r.IntN(n) }
 
 var (
 	allMethods  = []string{"GET", "POST", "DELETE", "PUT", "PATCH", "CONNECT", "TRACE", "HEAD", "OPTIONS"}
-	userMethods = []string{"GET", "POST", "DELETE", "PUT", "PATCH", "CONNECT"}
+	userMethods = []string{"GET", "POST", "DELETE", "PUT", "PATCH", "CONNECT", "GET", "POST", "DELETE", "TRACE"} // TRACE is registrable without WithTrace
 	oddMethods  = []string{"", "get", "BOGUS", "HEAD", "OPTIONS", "TRACE", "G T", "\xff"}
 )
 
@@ -312,6 +312,9 @@ func (g *G) history(rid int, c histCfg, steps int) {
 	var pool []string // every pattern ever used (live or not)
 	nextH := 1
 	addPat := func() string {
+		if len(pool) > 0 && g.chance(0.2) {
+			return g.pick(pool) // the same pattern again: more methods, duplicates, Any() on a live pattern
+		}
 		if len(pool) > 0 && g.chance(0.65) {
 			return g.mutatePattern(g.pick(pool), c.useIc)
 		}
@@ -329,8 +332,13 @@ func (g *G) history(rid int, c histCfg, steps int) {
 		if c.probeAll {
 			for _, p := range pool {
 				w := g.instantiate(p, simpleValues)
-				for _, m := range allMethods {
-					g.serveLine("serve", rid, m, w, "", nil)
+				if g.chance(0.15) {
+					for _, m := range allMethods {
+						g.serveLine("serve", rid, m, w, "", nil)
+					}
+				} else {
+					g.serveLine("serve", rid, "GET", w, "", nil)
+					g.serveLine("serve", rid, g.pick(allMethods), w, "", nil)
 				}
 			}
 			g.serveLine("serve", rid, "OPTIONS", "*", "", nil)
@@ -598,13 +606,29 @@ func streamOnion(g *G) { // C09
 		g.emit("group-use %d %s", gid, encNatList(g.mwList()))
 		g.emit("fhandle 1 %s 3 %s %s", encB("/y"), encNatList(g.mwList()), encL([]string{"PUT"}))
 		g.emit("use %d %s", rid, encNatList(g.mwList()))
+		// a second router in the same group; router-level Use on both after Add, registrations after that
+		g.emit("group-new %d %d %s any", gid, rid+1, encB("gb"))
+		g.emit("group-add %d %d any", gid, rid)
+		g.emit("use %d %s", rid, encNatList([]int{1 + g.intn(9)}))
+		g.emit("use %d %s", rid+1, encNatList([]int{1 + g.intn(9)}))
+		if g.chance(0.5) {
+			g.emit("group-use %d %s", gid, encNatList([]int{1 + g.intn(9)}))
+			g.emit("use %d %s", rid, encNatList([]int{1 + g.intn(9)}))
+		}
+		g.emit("handle %d /after %d %s %s", rid, 7, encNatList(g.mwList()), encL([]string{"GET"}))
+		g.emit("handle %d /after %d %s %s", rid+1, 8, encNatList(g.mwList()), encL([]string{"GET"}))
+		for _, m := range []string{"GET", "OPTIONS", "PUT"} {
+			g.serveLine("serve", rid, m, "/after", "", nil)
+			g.serveLine("serve", rid+1, m, "/after", "", nil)
+			g.serveLine("serve", rid+1, m, "/nf", "", nil)
+		}
 		for _, p := range []string{"/p/q/x", "/p/q/res/5", "/p/y", "/none", "*"} {
 			for _, m := range []string{"GET", "HEAD", "OPTIONS", "POST", "TRACE", "PUT"} {
 				g.serveLine("serve", rid, m, p, "", nil)
 				g.serveLine("gserve", gid, m, p, "", nil)
 			}
 		}
-		rid++
+		rid += 2
 		gid++
 	}
 }
